@@ -35,6 +35,8 @@ def __i{name}__(self, other):
         if len(other_rows) == 1:
             other = other_rows[0]
             for i in rows: i._i{name}_sparse(other)
+        elif len(rows) != len(other_rows):
+            raise ValueError('shape mismatch between arrays')
         else:
             for i, j in zip(rows, other_rows): i._i{name}_sparse(j)
     elif other.__class__ in SparseVectorSet:
@@ -54,7 +56,8 @@ def __i{name}__(self, other):
             for i in self.rows: i._i{name}_array(other) 
         elif ndim == 2:
             rows = self.rows
-            for i, j in zip(rows, other): i._i{name}_array(j)
+            if len(rows) != len(other): raise ValueError('shape mismatch between arrays')
+            for i, j in zip(rows, other): i._i{name}_row(j)
         else:
             raise ValueError('shape mismatch between arrays')
     return self
@@ -81,6 +84,8 @@ def __{name}__(self, other):
             new = SparseArray.from_rows(
                 [i._{name}_sparse(other) for i in rows]
             )
+        elif len(rows) != len(other_rows):
+            raise ValueError('shape mismatch between arrays')
         else:
             new = SparseArray.from_rows(
                 [i._{name}_sparse(j) for i, j in zip(rows, other_rows)]
@@ -107,8 +112,12 @@ def __{name}__(self, other):
                 i._{name}_array(other) for i in rows
             ])
         elif ndim == 2:
+            if len(rows) == 1: 
+                rows = len(other) * rows
+            elif len(rows) != len(other): 
+                raise ValueError('shape mismatch between arrays')
             new = SparseArray.from_rows(
-                [i._{name}_array(j) for i, j in zip(rows, other)]
+                [i._{name}_row(j) for i, j in zip(rows, other)]
             )
         else:
             new = self.to_array().__{name}__(other)
@@ -137,6 +146,10 @@ def __i{name}__(self, other):
         else:
             raise ValueError('shape mismatch between arrays')
     return self
+
+def _i{name}_row(self, other):
+    # A row of a dense 2-d operand; rows of length 1 broadcast as scalars
+    return self._i{name}_scalar(other[0]) if len(other) == 1 else self._i{name}_array(other)
 """
 
 sparse_vector_math = """
@@ -170,11 +183,15 @@ def __{name}__(self, other):
             new = self._{name}_array(other)
         elif ndim == 2:
             new = SparseArray.from_rows([
-                self._{name}_array(i) for i in other
+                self._{name}_row(i) for i in other
             ])
         else:
             new = self.to_array().__{name}__(other)
     return new
+
+def _{name}_row(self, other):
+    # A row of a dense 2-d operand; rows of length 1 broadcast as scalars
+    return self._{name}_scalar(other[0]) if len(other) == 1 else self._{name}_array(other)
 """
 sparse_vector_comparison_math = sparse_vector_math + """
 def _{name}_sparse(self, other):
@@ -2839,6 +2856,12 @@ class SparseLogicalVector:
     __lt__ = SparseVector.__lt__
     __ge__ = SparseVector.__ge__
     __le__ = SparseVector.__le__
+    _eq_row = SparseVector._eq_row
+    _ne_row = SparseVector._ne_row
+    _gt_row = SparseVector._gt_row
+    _lt_row = SparseVector._lt_row
+    _ge_row = SparseVector._ge_row
+    _le_row = SparseVector._le_row
     
     __float__ = SparseArray.__float__
     __bool__ = SparseArray.__bool__
@@ -2903,10 +2926,10 @@ class SparseLogicalVector:
             "boolean subtract, the `-` operator, is not supported, use the "
             "bitwise_xor, the `^` operator instead"
         )
-    _isub_scalar = _isub_sparse = _isub_array = __isub__
+    _isub_scalar = _isub_sparse = _isub_array = _isub_row = __isub__
     def __sub__(self, other):
         return SparseVector.from_dict({i: 1. for i in self.set}, self.size) - other
-    _sub_scalar = _sub_sparse = _sub_array = __sub__
+    _sub_scalar = _sub_sparse = _sub_array = _sub_row = __sub__
     
     def _imul_scalar(self, other):
         set = self.set
